@@ -27,3 +27,50 @@ func TestZucVectors(t *testing.T) {
 		t.Fatalf("set 2: %08x", z)
 	}
 }
+
+func TestEIA1Set1(t *testing.T) {
+	// UIA2 implementors' test data set 1 (COUNT-I 38A6F056, BEARER 1F, DIRECTION 0, LENGTH 88)
+	ik := [16]uint8{0x2b, 0xd6, 0x45, 0x9f, 0x82, 0xc5, 0xb3, 0x00, 0x95, 0x2c, 0x49, 0x10, 0x48, 0x81, 0xff, 0x48}
+	msg := []uint8{0x33, 0x32, 0x34, 0x62, 0x63, 0x39, 0x38, 0x61, 0x37, 0x34, 0x79, 0, 0, 0, 0, 0}
+	if m := EIA1(ik, 0x38a6f056, 0x1f, 0, msg, 88); m != 0x731f1165 {
+		t.Fatalf("EIA1 = %08x", m)
+	}
+	ik2 := [16]uint8{0x7e, 0x5e, 0x94, 0x43, 0x1e, 0x11, 0xd7, 0x38, 0x28, 0xd7, 0x39, 0xcc, 0x6c, 0xed, 0x45, 0x73}
+	msg2 := []uint8{0xb3, 0xd3, 0xc9, 0x17, 0x0a, 0x4e, 0x16, 0x32, 0xf6, 0x0f, 0x86, 0x10, 0x13, 0xd2, 0x2d, 0x84,
+		0xb7, 0x26, 0xb6, 0xa2, 0x78, 0xd8, 0x02, 0xd1, 0xee, 0xaf, 0x13, 0x21, 0xba, 0x59, 0x29, 0xdc}
+	if m := EIA1(ik2, 0x36af6144, 0x18, 1, msg2, 254); m != 0xe3259f6f {
+		t.Fatalf("EIA1 set 2 = %08x", m)
+	}
+}
+
+func eia3(ik [16]uint8, count uint32, bearer, dir uint8, msg []uint8, length int) uint32 {
+	L := (length+31)/32 + 2
+	z := make([]uint32, L)
+	for i := range z {
+		z[i] = ZucKeystreamWord(ik, EIA3IV(count, bearer, dir), i)
+	}
+	return EIA3Mac(msg, z, length)
+}
+
+func TestEIA3Sets(t *testing.T) {
+	var ik [16]uint8
+	if m := eia3(ik, 0, 0, 0, []uint8{0, 0, 0, 0}, 1); m != 0xc8a9595e {
+		t.Fatalf("EIA3 set 1 = %08x", m)
+	}
+	ik2 := [16]uint8{0x47, 0x05, 0x41, 0x25, 0x56, 0x1e, 0xb2, 0xdd, 0xa9, 0x40, 0x59, 0xda, 0x05, 0x09, 0x78, 0x50}
+	if m := eia3(ik2, 0x561eb2dd, 0x14, 0, make([]uint8, 12), 90); m != 0x6719a088 {
+		t.Fatalf("EIA3 set 2 = %08x", m)
+	}
+}
+
+func TestEEA3Set1(t *testing.T) {
+	// EEA3 test set 1: key 173d14ba5003731d7a60049470f00a29, COUNT 66035492, BEARER f, DIRECTION 0, first ciphertext word a6c85fc6
+	ck := [16]uint8{0x17, 0x3d, 0x14, 0xba, 0x50, 0x03, 0x73, 0x1d, 0x7a, 0x60, 0x04, 0x94, 0x70, 0xf0, 0x0a, 0x29}
+	in := []uint8{0x6c, 0xf6, 0x53, 0x40}
+	want := []uint8{0xa6, 0xc8, 0x5f, 0xc6}
+	for j := range in {
+		if got := in[j] ^ EEA3KS(ck, 0x66035492, 0xf, 0, j); got != want[j] {
+			t.Fatalf("EEA3 octet %d = %02x", j, got)
+		}
+	}
+}
